@@ -69,6 +69,7 @@ type result struct {
 	Rejected     int            `json:"rejected"`
 	Noop         int            `json:"noop"`
 	Rebuilds     int            `json:"rebuilds"`
+	Primed       int            `json:"primed"`
 	ErrClasses   map[string]int `json:"err_classes"`
 	CertClasses  map[string]int `json:"cert_classes"` // distinct certificates by (mutation classes, outcome)
 	Viols        []mc.Viol      `json:"viols,omitempty"`
@@ -206,6 +207,20 @@ func (w *world) runCases(res *result, part string, cases []tcase, lo, hi int, on
 				res.HarnessErr = err.Error()
 				return
 			}
+			// the attacker first shows the node every honestly produced certificate that does not
+			// commit (all non-quorum signer subsets with their true bitmaps): whatever the node
+			// remembers from verifying them (caches) must not make a forged combination acceptable
+			for _, pc := range w.primes {
+				pq, err := qcOf(pc)
+				if err != nil {
+					continue
+				}
+				if o := w.feed(w.N, pq, false); o.accepted {
+					res.HarnessErr = "priming certificate " + pc.name + " was accepted (the subsets part reports this class)"
+					return
+				}
+				res.Primed++
+			}
 		}
 		qc, err := qcOf(tc)
 		if err != nil {
@@ -314,6 +329,15 @@ func runJob(j job) (res result) {
 			return
 		}
 		w.sanity = map[string]cert{j.Part: base}
+		if j.Part != "subsets" {
+			if sc, e := w.subsetsCases(); e == nil {
+				for _, tc := range sc {
+					if !w.validCommitCert(tc.c).ok && strings.HasPrefix(tc.name, "subset:cur:") {
+						w.primes = append(w.primes, tc)
+					}
+				}
+			}
+		}
 		var cases []tcase
 		if j.Part == "subsets" {
 			cases, err = w.subsetsCases()
